@@ -234,7 +234,7 @@ def r15_1(ctx: Ctx) -> None:
         ok = s.owner in PARTITION_WRITERS[s.attr]
         ctx.record("R15.1", f"{s.path}::{s.owner}::{s.kind} {s.attr}", s.where, ok,
                    "partition-changing method analysed above" if ok else "writer of a partition dictionary that the typestate analysis does not cover")
-    ctx.floor("R15.1", "writers of the partition dictionaries", n, 12)
+    ctx.floor("R15.1", "writers of the partition dictionaries", n, 8)
 
 
 def r15_2(ctx: Ctx) -> None:
